@@ -8,12 +8,14 @@ CONSTANTS
   PlusOne = TRUE
   UnsatGe = TRUE
   ImsLe = TRUE
+  ImsLocalTime = FALSE
   Tokens <- PathTokens
   MaxTokens = 4
   StartPaths <- EmptyOnly
   Fbs <- AllFbs
   Ranges <- NoRangeOnly
-  Imss <- NoImsOnly
+  Zones <- UtcOnly
+  ImsFor <- NoImsOnly
 INVARIANT Containment
 INVARIANT ServedIsInside
 INVARIANT NothingElseIs404
@@ -25,4 +27,5 @@ INVARIANT ContentRangeConsistent
 INVARIANT ZeroSizeIgnoresRange
 INVARIANT UnsatCarriesSize
 INVARIANT NotModifiedNoBody
+INVARIANT DecisionIndependentOfZone
 INVARIANT Emit
